@@ -519,6 +519,9 @@ Tags(r, n) == (IF r.eq /\ (bud.tt + bud.th + bud.snap + bud.rs > 0 \/ term > 1) 
          \cup (IF r.err = "inflight" THEN {"inflight"} ELSE {})
          \cup (IF r.ndr > 0 THEN {"afterdrop"} ELSE {})
          \cup (IF r.ndr > 0 /\ mw[n].bdrop > 1 THEN {"batchdrop"} ELSE {})      \* one batch lost two or more reports
+         \* ... the drop came right after a report that ended in an error (the bookkeeping of "what was verified last" must
+         \* advance over an unverifiable range too, or the dropped range is never named)
+         \cup (IF r.ndr > 0 /\ Len(Deliv(n)) >= 2 /\ Deliv(n)[Len(Deliv(n)) - 1].err # "ok" THEN {"droperr"} ELSE {})
          \cup (IF mw[n].sblk > 0 THEN {"blockedstore"} ELSE {})
          \cup (IF bud.fo + bud.fail > 0 THEN {"refused"} ELSE {})
 EmitInt == (EmitEvery > 0 /\ JustDelivered /\ Len(Deliv(hist[Len(hist)].n)) > 0)
